@@ -1199,6 +1199,71 @@ example : let p : Param := ⟨⟨.query, .pipeDelimited, false⟩, ['p'], true, 
     UntypedSchema p = false ∧
     validateParameter p { query := [(['p'], ["1|2".toList])] } = .accept := by decide
 
+/-- **compositions with enums.** For every allOf / anyOf / oneOf over non-nested leaves (primitives, arrays, flat objects,
+untyped — enums allowed everywhere) the verdict of ValidateParameter is the specification's outside CookieExplode,
+EnumGoType and UntypedSchema. The value is the one some alternative's decoder read (`decodeValue_val`); it carries that
+alternative's Go types (`decodeLeaf_typed`, with the kind invariant: only an array schema yields an array, …); outside
+EnumGoType either no alternative yields an int32 (`typed_no32`) or no alternative has an enum, and an array enum never
+meets integer items (`typed_noIntItems`) — so every alternative's validation agrees (`visitLeaf_eq_val`). -/
+theorem validate_eq_spec_comp_partial (p : Param) (r : Req)
+    (hcomp : isComposition p.schema = true)
+    (hwf : ∀ l ∈ schLeaves p.schema, leafWF l) (hnd : ∀ l ∈ schLeaves p.schema, leafIsDeep l = false)
+    (h1 : CookieExplode p = false) (h2 : EnumGoType p = false) (h6 : UntypedSchema p = false) :
+    validateParameter p r = validateSpec p r := by
+  unfold validateParameter validateSpec
+  have hdeep : ∀ l ∈ schLeaves p.schema, ∀ sp rq, l = .deep sp rq → p.cell.loc = .query ∧ p.cell.style = .deepObject := by
+    intro l hl sp rq e
+    have := hnd l hl
+    simp [e, leafIsDeep] at this
+  rw [decodeStyled_impl_eq_spec_partial p r hdeep h1 h6]
+  obtain ⟨c, name, req, ae, sch⟩ := p
+  simp only at hcomp hwf hnd h2 ⊢
+  -- the class, unfolded for a composition
+  simp only [EnumGoType, hcomp, Bool.true_and, Bool.or_eq_false_iff, Bool.and_eq_false_iff] at h2
+  obtain ⟨_, hB, hC⟩ := h2
+  -- the decoded value comes from some alternative (or is nil) and is typed by it
+  have hfrom : FromLeaf (decodeLeaf spec c name r) (schLeaves sch) (decodeStyled spec c name req r sch).val := by
+    unfold decodeStyled
+    split
+    · exact Or.inl rfl
+    · exact decodeValue_val spec c name req r sch
+  have hleaf : ∀ lj ∈ schLeaves sch,
+      visitLeaf enumHitImpl deepEqImpl lj (decodeStyled spec c name req r sch).val =
+        visitLeaf enumHitSpec enumHitSpec lj (decodeStyled spec c name req r sch).val := by
+    intro lj hlj
+    generalize (decodeStyled spec c name req r sch).val = v at hfrom
+    have hv : (valNo32 v ∨ leafHasEnum lj = false) ∧ (leafArrEnum lj = false ∨ valNoIntItems v) := by
+      rcases hfrom with rfl | ⟨li, hli, rfl⟩
+      · exact ⟨Or.inl trivial, Or.inr trivial⟩
+      · have hty := decodeLeaf_typed spec (by simp [spec, specPrim_eq_parsePrim]) c name r li (hwf li hli)
+        constructor
+        · rcases hB with h | h
+          · exact Or.inl (typed_no32 li _ (hnd li hli) hty (any_false_mem _ _ h li hli))
+          · exact Or.inr (any_false_mem _ _ h lj hlj)
+        · rcases hC with h | h
+          · exact Or.inr (typed_noIntItems li _ hty (any_false_mem _ _ h li hli))
+          · exact Or.inl (any_false_mem _ _ h lj hlj)
+    exact visitLeaf_eq_val lj v (hnd lj hlj) hv.1 hv.2
+  have hvis : visitSch enumHitImpl deepEqImpl sch (decodeStyled spec c name req r sch).val =
+      visitSch enumHitSpec enumHitSpec sch (decodeStyled spec c name req r sch).val := by
+    cases sch with
+    | leaf l => simp [isComposition] at hcomp
+    | allOf ls => exact all_congr' _ _ ls hleaf
+    | anyOf ls => exact any_congr' _ _ ls hleaf
+    | oneOf ls =>
+      have hl' : ∀ l ∈ ls, visitLeaf enumHitImpl deepEqImpl l (decodeStyled spec c name req r (.oneOf ls)).val =
+          visitLeaf enumHitSpec enumHitSpec l (decodeStyled spec c name req r (.oneOf ls)).val := hleaf
+      simp only [visitSch]
+      rw [List.map_congr_left hl']
+  simp only [decide', hvis]
+
+/-- non-vacuity for `validate_eq_spec_comp_partial`: an anyOf with enums in both alternatives -/
+example : let p : Param := ⟨⟨.query, .form, true⟩, ['p'], true, false,
+      .anyOf [.prim { t := .integer, enum := [.num 5 0, .num 12 0] }, .prim { t := .string, enum := [.str "dave".toList] }]⟩
+    isComposition p.schema = true ∧ CookieExplode p = false ∧ EnumGoType p = false ∧ UntypedSchema p = false ∧
+    validateParameter p { query := [(['p'], ["12".toList])] } = .accept ∧
+    validateParameter p { query := [(['p'], ["13".toList])] } = .schema := by decide
+
 /-- non-vacuity: the hypotheses hold for a required matrix-style object parameter with an additionalProperties schema -/
 example : let p : Param := ⟨⟨.path, .matrix, true⟩, "id".toList, true, false,
       .leaf (.obj [(['a'], { t := .int32, max := some 6 }), (['b'], { t := .string, enum := [.str ['x']] })] [['a']] (some { t := .integer }))⟩
